@@ -45,6 +45,35 @@ def allof(*checks):
     return run
 
 
+def field_index(relpath, struct, field):
+    """Declaration index of `field` in `struct` (MIR places name fields by index), read from the tree the MIR was
+    dumped from.  None when the struct or the field is not found (callers turn that into 'inconclusive')."""
+    import os
+    import re
+    from . import mir as _M
+    from . import overlay as _ov
+    for root in ([_M.SOURCE_ROOT] if _M.SOURCE_ROOT else []) + [_ov.REPO]:
+        path = os.path.join(root, "engine", "src", relpath)
+        if not os.path.exists(path):
+            continue
+        txt = open(path).read()
+        m = re.search(r"\bstruct %s\b[^{;]*\{" % re.escape(struct), txt)
+        if not m:
+            return None
+        depth, i, body = 1, m.end(), []
+        while i < len(txt) and depth:
+            c = txt[i]
+            depth += c == "{"
+            depth -= c == "}"
+            body.append(c)
+            i += 1
+        body = re.sub(r"//[^\n]*", "", "".join(body))
+        body = re.sub(r"#\[[^\]]*\]", "", body)
+        names = re.findall(r"(?:^|[,{\n])\s*(?:pub(?:\([^)]*\))?\s+)?([a-z_][A-Za-z0-9_]*)\s*:", body)
+        return names.index(field) if field in names else None
+    return None
+
+
 # Frequently used patterns -----------------------------------------------------------------
 PERSIST_SOME = Arm(r"^discr\(\(\(\*\{arg\(_1: &HnswBackend\)\}\)\.\d+: Option<hnsw_backend::PersistenceState>\)\)$", {"1"}, name="self.persistence is Some")
 PERSIST_NONE = Arm(r"^discr\(\(\(\*\{arg\(_1: &HnswBackend\)\}\)\.\d+: Option<hnsw_backend::PersistenceState>\)\)$", {"0"}, name="self.persistence is None")
